@@ -15,3 +15,7 @@ func (h *ServerHandler) VerifSetModes(plain, serverless, quiet bool) {
 func (h *ServerHandler) VerifModes() (bool, bool, bool) { return h.plain, h.serverless, h.quiet }
 func (h *ServerHandler) VerifHostname() string          { return h.hostname }
 func (h *ServerHandler) VerifActiveCommands() int32     { return h.activeCommands }
+
+// VerifReadPending: bytes of a message still waiting for the next Read (after the fix of the
+// transport-buffer truncation).
+func (h *ServerHandler) VerifReadPending() int { return h.readBuf.Len() }
